@@ -261,7 +261,7 @@ fn vec_check(ctx: &mut Ctx) {
     // the same generators on vectors of up to 200 items: imbl switches from its inline /
     // single-chunk representation to a multi-chunk RRB tree at 64 items
     if let Some((_, cfg, q, t)) = vec_phases(prop).into_iter().next() {
-        let big = GenCfg { max_initial: 200, max_ops: 14, ..cfg };
+        let big = GenCfg { max_initial: 200, max_ops: 14, max_append: 150, ..cfg };
         let n = ctx.pick(q / 25, t / 25);
         ctx.random("large-vectors", "vec", &|| vec_gen::case(&big), &run, n);
     }
